@@ -74,7 +74,8 @@ Definition mx_nested_reader (k : kind) (rep : bool) (field : Z) (outer : bytes) 
   let '(st, vs) := if wrap =? 2 then dec_repeated_message F 9 fn st0 init else dec_message F 9 fn st0 init in
   (* follow-up at the outer level: a fixed32 reader on field 7, which the input carries as a varint (wrong wire type):
      the failure must stop the decoder whatever happened inside the callback *)
-  let st2 := fst (dec_single KFixed32 7 st (VInt 0)) in
+  (* ... or, for inputs of odd length, the public Fail(7, msg) of a custom type *)
+  let st2 := if Nat.even (length outer) then fst (dec_single KFixed32 7 st (VInt 0)) else fail 7 ECustom st in
   (pf st, Z.of_nat (length (buf st)), err st, vs, (pf st2, Z.of_nat (length (buf st2)), err st2)).
 
 Definition mx_writer_enum (num : Z) (vs : list val) : result bytes := enc_repeated_enum num (map as_int vs) [].
